@@ -16,7 +16,13 @@ import (
 	"verif/harness/internal/pbench"
 )
 
-func TestMulticast(t *testing.T) {
+func TestMulticast(t *testing.T) { testMulticast(t, false) }
+
+// TestMulticastMessage is the group-message stream (own child process: it holds the one
+// input that crashes the unchanged tree from a goroutine of the service).
+func TestMulticastMessage(t *testing.T) { testMulticast(t, true) }
+
+func testMulticast(t *testing.T, messageOnly bool) {
 	run := obs.Start(t, prop)
 	defer run.Done()
 	run.Rule(genRule+"; group node: real multicast service over a real kademlia with 3 connected peers; it has joined group g1 (with the local API subscribed to group messages and multicasts through the real in-process RPC server) and observes nothing else", genAssume...)
@@ -102,207 +108,214 @@ func TestMulticast(t *testing.T) {
 		manyG[i] = rnd(gen, 32)
 	}
 
-	// ---- handshake (server) and Handshake (client) -----------------------------------------
-	hs := []in{
-		gids("gids-empty"), gids("gids-g1", g1.Bytes()), gids("gids-other", gOther.Bytes()), gids("gids-odd-lengths", odd...),
-		gids("gids-duplicates", g1.Bytes(), g1.Bytes(), g1.Bytes()), gids("gids-3000", manyG...), gids("gids-self-overlay", self.Overlay.Bytes()),
-		{"gids-as-varint", (&pbench.PB{}).Varint(1, 3).Framed()},
-	}
-	runEndpoint(t, run, endpoint{
-		name: "multicast.handshake", valid: [][]byte{pbench.Frame(&mcpb.GIDs{Gid: [][]byte{g1.Bytes(), gOther.Bytes()}})}, structured: hs,
-		drive: func(b []byte, step stepFn) error {
-			n := newNode(nil, false)
-			defer closeNode(n)
-			var err error
-			step("handler", func() {
-				err = handlerOf(t, n.svc.Protocol(), "handshake")(context.Background(), p2pPeer(peers[0].Overlay, full), pbench.NewStream(b))
-			})
-			follow(n, step)
-			return err
-		},
-	}, run.N(30, 300))
-	runEndpoint(t, run, endpoint{
-		name: "multicast.Handshake", valid: [][]byte{pbench.Frame(&mcpb.GIDs{Gid: [][]byte{g1.Bytes(), gOther.Bytes()}})}, structured: hs,
-		drive: func(b []byte, step stepFn) error {
-			n := newNode(b, false)
-			defer closeNode(n)
-			var err error
-			step("Handshake", func() {
-				ctx, cancel := context.WithTimeout(context.Background(), 5*time.Second)
-				defer cancel()
-				err = n.svc.Handshake(ctx, peers[1].Overlay)
-			})
-			follow(n, step)
-			return err
-		},
-	}, run.N(30, 300))
-
-	// ---- notify ----------------------------------------------------------------------------
-	var ns []in
-	for _, st := range []int32{0, 1, 2, 3, -1, 2147483647} {
-		ns = append(ns, in{"notify-status", pbench.Frame(&mcpb.Notify{Status: st, Gids: [][]byte{g1.Bytes(), gOther.Bytes()}})})
-		ns = append(ns, in{"notify-status-odd-gids", pbench.Frame(&mcpb.Notify{Status: st, Gids: odd})})
-	}
-	ns = append(ns, in{"notify-empty", pbench.Frame(&mcpb.Notify{})}, in{"notify-3000-gids", pbench.Frame(&mcpb.Notify{Status: 1, Gids: manyG})})
-	runEndpoint(t, run, endpoint{
-		name: "multicast.notify", valid: [][]byte{pbench.Frame(&mcpb.Notify{Status: 1, Gids: [][]byte{g1.Bytes()}})}, structured: ns,
-		drive: func(b []byte, step stepFn) error {
-			n := newNode(nil, false)
-			defer closeNode(n)
-			var err error
-			step("handler", func() {
-				err = handlerOf(t, n.svc.Protocol(), "notify")(context.Background(), p2pPeer(peers[0].Overlay, full), pbench.NewStream(b))
-			})
-			follow(n, step)
-			return err
-		},
-	}, run.N(30, 300))
-
-	// ---- findGroup (server, with forwarding whose reply is read) and its client -------------
-	var fg []in
-	addFG := func(class string, r *mcpb.FindGroupReq) { fg = append(fg, in{class, pbench.Frame(r)}) }
-	addFG("find-empty", &mcpb.FindGroupReq{})
-	addFG("find-g1", &mcpb.FindGroupReq{Gid: g1.Bytes(), Limit: 5})
-	addFG("find-other", &mcpb.FindGroupReq{Gid: gOther.Bytes(), Limit: 5})
-	addFG("find-limit-negative", &mcpb.FindGroupReq{Gid: g1.Bytes(), Limit: -4})
-	addFG("find-limit-max", &mcpb.FindGroupReq{Gid: g1.Bytes(), Limit: 2147483647})
-	addFG("find-ttl-negative", &mcpb.FindGroupReq{Gid: gOther.Bytes(), Limit: 5, Ttl: -2147483648})
-	addFG("find-ttl-max", &mcpb.FindGroupReq{Gid: gOther.Bytes(), Limit: 5, Ttl: 2147483647})
-	addFG("find-ttl-9", &mcpb.FindGroupReq{Gid: gOther.Bytes(), Limit: 5, Ttl: 9})
-	addFG("find-paths-odd", &mcpb.FindGroupReq{Gid: gOther.Bytes(), Limit: 5, Paths: odd})
-	addFG("find-paths-3000", &mcpb.FindGroupReq{Gid: gOther.Bytes(), Limit: 5, Paths: manyG})
-	for _, nb := range pbench.Addrs(gen) {
-		addFG("find-gid-"+nb.Name, &mcpb.FindGroupReq{Gid: nb.B, Limit: 3})
-	}
-	fgResp := func(a ...[]byte) []byte { return pbench.Frame(&mcpb.FindGroupResp{Addresses: a}) }
-	for _, fwd := range []in{{"", nil}, {"+forward-reply-odd-addresses", fgResp(odd...)}, {"+forward-reply-garbage", rnd(gen, 50)}} {
-		fwd := fwd
-		nm := run.N(30, 300)
-		if fwd.class != "" {
-			nm = run.N(6, 60)
+	if !messageOnly {
+		// ---- handshake (server) and Handshake (client) -----------------------------------------
+		hs := []in{
+			gids("gids-empty"), gids("gids-g1", g1.Bytes()), gids("gids-other", gOther.Bytes()), gids("gids-odd-lengths", odd...),
+			gids("gids-duplicates", g1.Bytes(), g1.Bytes(), g1.Bytes()), gids("gids-3000", manyG...), gids("gids-self-overlay", self.Overlay.Bytes()),
+			{"gids-as-varint", (&pbench.PB{}).Varint(1, 3).Framed()},
 		}
 		runEndpoint(t, run, endpoint{
-			name: "multicast.findGroup" + fwd.class, valid: [][]byte{pbench.Frame(&mcpb.FindGroupReq{Gid: gOther.Bytes(), Limit: 5, Paths: [][]byte{peers[2].Overlay.Bytes()}})}, structured: fg, noRaw: fwd.class != "",
+			name: "multicast.handshake", valid: [][]byte{pbench.Frame(&mcpb.GIDs{Gid: [][]byte{g1.Bytes(), gOther.Bytes()}})}, structured: hs,
 			drive: func(b []byte, step stepFn) error {
-				n := newNode(fwd.b, false)
+				n := newNode(nil, false)
 				defer closeNode(n)
-				// the node knows a member of another group so that requests are forwarded
-				step("setup", func() {
-					_ = handlerOf(t, n.svc.Protocol(), "handshake")(context.Background(), p2pPeer(peers[1].Overlay, full), pbench.NewStream(pbench.Frame(&mcpb.GIDs{Gid: [][]byte{g1.Bytes(), rnd(gen, 32)}})))
-				})
 				var err error
 				step("handler", func() {
-					ctx, cancel := context.WithTimeout(context.Background(), 5*time.Second)
-					defer cancel()
-					err = handlerOf(t, n.svc.Protocol(), "findGroup")(ctx, p2pPeer(peers[0].Overlay, full), pbench.NewStream(b))
+					err = handlerOf(t, n.svc.Protocol(), "handshake")(context.Background(), p2pPeer(peers[0].Overlay, full), pbench.NewStream(b))
 				})
 				follow(n, step)
 				return err
 			},
-		}, nm)
-	}
-
-	// ---- multicast (flooded message) -------------------------------------------------------
-	var ms []in
-	addM := func(class string, m *mcpb.MulticastMsg) { ms = append(ms, in{class, pbench.Frame(m)}) }
-	addM("msg-empty", &mcpb.MulticastMsg{})
-	addM("msg-g1", &mcpb.MulticastMsg{Id: 1, CreateTime: 1, Origin: peers[0].Overlay.Bytes(), Gid: g1.Bytes(), Data: []byte("hello")})
-	addM("msg-other-group", &mcpb.MulticastMsg{Id: 2, Origin: peers[0].Overlay.Bytes(), Gid: gOther.Bytes(), Data: []byte("hello")})
-	addM("msg-origin-self", &mcpb.MulticastMsg{Id: 3, Origin: self.Overlay.Bytes(), Gid: g1.Bytes()})
-	addM("msg-origin-empty", &mcpb.MulticastMsg{Id: 4, Gid: g1.Bytes()})
-	addM("msg-createtime-negative", &mcpb.MulticastMsg{Id: 5, CreateTime: -1 << 63, Origin: peers[0].Overlay.Bytes(), Gid: g1.Bytes()})
-	addM("msg-id-max", &mcpb.MulticastMsg{Id: ^uint64(0), Origin: peers[0].Overlay.Bytes(), Gid: g1.Bytes()})
-	addM("msg-data-900KB", &mcpb.MulticastMsg{Id: 6, Origin: peers[0].Overlay.Bytes(), Gid: g1.Bytes(), Data: make([]byte, 900000)})
-	for _, nb := range pbench.Addrs(gen) {
-		addM("msg-origin-"+nb.Name, &mcpb.MulticastMsg{Id: 7, Origin: nb.B, Gid: g1.Bytes()})
-		addM("msg-gid-"+nb.Name, &mcpb.MulticastMsg{Id: 8, Origin: peers[0].Overlay.Bytes(), Gid: nb.B})
-	}
-	for _, sub := range []bool{false, true} {
-		sub := sub
-		name := "multicast.multicast"
-		if sub {
-			name += "+subscribed"
-		}
+		}, run.N(20, 300))
 		runEndpoint(t, run, endpoint{
-			name: name, valid: [][]byte{pbench.Frame(&mcpb.MulticastMsg{Id: 77, CreateTime: 5, Origin: peers[0].Overlay.Bytes(), Gid: g1.Bytes(), Data: []byte("v")})}, structured: ms,
-			drive: func(b []byte, step stepFn) error {
-				n := newNode(nil, sub)
-				defer closeNode(n)
-				step("setup", func() {
-					_ = handlerOf(t, n.svc.Protocol(), "handshake")(context.Background(), p2pPeer(peers[1].Overlay, full), pbench.NewStream(pbench.Frame(&mcpb.GIDs{Gid: [][]byte{g1.Bytes()}})))
-				})
-				var err error
-				step("handler", func() {
-					err = handlerOf(t, n.svc.Protocol(), "multicast")(context.Background(), p2pPeer(peers[0].Overlay, full), pbench.NewStream(b))
-				})
-				follow(n, step)
-				return err
-			},
-		}, run.N(30, 300))
-	}
-
-	// ---- message (group message with optional session) --------------------------------------
-	var gm []in
-	addG := func(class string, frames ...[]byte) { gm = append(gm, in{class, pbench.Cat(frames...)}) }
-	msg := func(gid []byte, typ int32, data []byte) []byte {
-		return pbench.Frame(&mcpb.GroupMsg{Gid: gid, Type: typ, Data: data})
-	}
-	addG("gmsg-empty", pbench.Frame(&mcpb.GroupMsg{}))
-	addG("gmsg-sendonly-g1", msg(g1.Bytes(), 0, []byte("a")))
-	addG("gmsg-sendreceive-g1", msg(g1.Bytes(), 1, []byte("a")))
-	addG("gmsg-sendstream-g1", msg(g1.Bytes(), 2, []byte("a")))
-	addG("gmsg-type-negative", msg(g1.Bytes(), -1, []byte("a")))
-	addG("gmsg-type-huge", msg(g1.Bytes(), 2147483647, []byte("a")))
-	addG("gmsg-other-group", msg(gOther.Bytes(), 1, []byte("a")))
-	addG("gmsg-err-set", pbench.Frame(&mcpb.GroupMsg{Gid: g1.Bytes(), Type: 0, Err: "%s%d boom"}))
-	for _, nb := range pbench.Addrs(gen) {
-		addG("gmsg-gid-"+nb.Name, msg(nb.B, 1, nil))
-	}
-	// a second frame after a send-receive message: the session reader of the unchanged tree
-	// unmarshals it into a nil message in a goroutine of its own
-	late := []in{{"gmsg-sendreceive-then-second-frame", pbench.Cat(msg(g1.Bytes(), 1, []byte("a")), msg(g1.Bytes(), 1, []byte("b")))}}
-	for _, sub := range []bool{false, true} {
-		sub := sub
-		name := "multicast.message"
-		var l []in
-		if sub {
-			name += "+subscribed"
-			l = late
-		}
-		runEndpoint(t, run, endpoint{
-			name: name, valid: [][]byte{msg(g1.Bytes(), 0, []byte("valid")), msg(g1.Bytes(), 1, []byte("valid"))}, structured: gm, late: l,
-			drive: func(b []byte, step stepFn) error {
-				n := newNode(nil, sub)
-				defer closeNode(n)
-				var err error
-				step("handler", func() {
-					err = handlerOf(t, n.svc.Protocol(), "message")(context.Background(), p2pPeer(peers[0].Overlay, full), pbench.NewStream(b))
-				})
-				follow(n, step)
-				return err
-			},
-		}, run.N(30, 300))
-	}
-
-	// ---- clients: Send / SendReceive replies ------------------------------------------------
-	var rs []in
-	rs = append(rs, in{"reply-empty-msg", pbench.Frame(&mcpb.GroupMsg{})}, in{"reply-err", pbench.Frame(&mcpb.GroupMsg{Err: "%!s(boom) %d"})},
-		in{"reply-data", pbench.Frame(&mcpb.GroupMsg{Data: rnd(gen, 100)})}, in{"reply-two-frames", pbench.Cat(pbench.Frame(&mcpb.GroupMsg{Data: []byte("1")}), pbench.Frame(&mcpb.GroupMsg{Data: []byte("2")}))})
-	for _, which := range []string{"Send", "SendReceive"} {
-		which := which
-		runEndpoint(t, run, endpoint{
-			name: "multicast." + which, valid: [][]byte{pbench.Frame(&mcpb.GroupMsg{Gid: g1.Bytes(), Data: []byte("ok")})}, structured: rs,
+			name: "multicast.Handshake", valid: [][]byte{pbench.Frame(&mcpb.GIDs{Gid: [][]byte{g1.Bytes(), gOther.Bytes()}})}, structured: hs,
 			drive: func(b []byte, step stepFn) error {
 				n := newNode(b, false)
 				defer closeNode(n)
-				ctx, cancel := context.WithTimeout(context.Background(), 5*time.Second)
-				defer cancel()
-				if which == "Send" {
-					return n.svc.Send(ctx, []byte("q"), g1, peers[0].Overlay)
-				}
-				_, err := n.svc.SendReceive(ctx, []byte("q"), g1, peers[0].Overlay)
+				var err error
+				step("Handshake", func() {
+					ctx, cancel := context.WithTimeout(context.Background(), 5*time.Second)
+					defer cancel()
+					err = n.svc.Handshake(ctx, peers[1].Overlay)
+				})
+				follow(n, step)
 				return err
 			},
-		}, run.N(20, 200))
+		}, run.N(20, 300))
+
+		// ---- notify ----------------------------------------------------------------------------
+		var ns []in
+		for _, st := range []int32{0, 1, 2, 3, -1, 2147483647} {
+			ns = append(ns, in{"notify-status", pbench.Frame(&mcpb.Notify{Status: st, Gids: [][]byte{g1.Bytes(), gOther.Bytes()}})})
+			ns = append(ns, in{"notify-status-odd-gids", pbench.Frame(&mcpb.Notify{Status: st, Gids: odd})})
+		}
+		ns = append(ns, in{"notify-empty", pbench.Frame(&mcpb.Notify{})}, in{"notify-3000-gids", pbench.Frame(&mcpb.Notify{Status: 1, Gids: manyG})})
+		runEndpoint(t, run, endpoint{
+			name: "multicast.notify", valid: [][]byte{pbench.Frame(&mcpb.Notify{Status: 1, Gids: [][]byte{g1.Bytes()}})}, structured: ns,
+			drive: func(b []byte, step stepFn) error {
+				n := newNode(nil, false)
+				defer closeNode(n)
+				var err error
+				step("handler", func() {
+					err = handlerOf(t, n.svc.Protocol(), "notify")(context.Background(), p2pPeer(peers[0].Overlay, full), pbench.NewStream(b))
+				})
+				follow(n, step)
+				return err
+			},
+		}, run.N(20, 300))
+
+		// ---- findGroup (server, with forwarding whose reply is read) and its client -------------
+		var fg []in
+		addFG := func(class string, r *mcpb.FindGroupReq) { fg = append(fg, in{class, pbench.Frame(r)}) }
+		addFG("find-empty", &mcpb.FindGroupReq{})
+		addFG("find-g1", &mcpb.FindGroupReq{Gid: g1.Bytes(), Limit: 5})
+		addFG("find-other", &mcpb.FindGroupReq{Gid: gOther.Bytes(), Limit: 5})
+		addFG("find-limit-negative", &mcpb.FindGroupReq{Gid: g1.Bytes(), Limit: -4})
+		addFG("find-limit-max", &mcpb.FindGroupReq{Gid: g1.Bytes(), Limit: 2147483647})
+		addFG("find-ttl-negative", &mcpb.FindGroupReq{Gid: gOther.Bytes(), Limit: 5, Ttl: -2147483648})
+		addFG("find-ttl-max", &mcpb.FindGroupReq{Gid: gOther.Bytes(), Limit: 5, Ttl: 2147483647})
+		addFG("find-ttl-9", &mcpb.FindGroupReq{Gid: gOther.Bytes(), Limit: 5, Ttl: 9})
+		addFG("find-paths-odd", &mcpb.FindGroupReq{Gid: gOther.Bytes(), Limit: 5, Paths: odd})
+		addFG("find-paths-3000", &mcpb.FindGroupReq{Gid: gOther.Bytes(), Limit: 5, Paths: manyG})
+		for _, nb := range pbench.Addrs(gen) {
+			addFG("find-gid-"+nb.Name, &mcpb.FindGroupReq{Gid: nb.B, Limit: 3})
+		}
+		fgResp := func(a ...[]byte) []byte { return pbench.Frame(&mcpb.FindGroupResp{Addresses: a}) }
+		for _, fwd := range []in{{"", nil}, {"+forward-reply-odd-addresses", fgResp(odd...)}, {"+forward-reply-garbage", rnd(gen, 50)}} {
+			fwd := fwd
+			nm := run.N(30, 300)
+			if fwd.class != "" {
+				nm = run.N(6, 60)
+			}
+			runEndpoint(t, run, endpoint{
+				name: "multicast.findGroup" + fwd.class, valid: [][]byte{pbench.Frame(&mcpb.FindGroupReq{Gid: gOther.Bytes(), Limit: 5, Paths: [][]byte{peers[2].Overlay.Bytes()}})}, structured: fg, noRaw: fwd.class != "",
+				drive: func(b []byte, step stepFn) error {
+					n := newNode(fwd.b, false)
+					defer closeNode(n)
+					// the node knows a member of another group so that requests are forwarded
+					step("setup", func() {
+						_ = handlerOf(t, n.svc.Protocol(), "handshake")(context.Background(), p2pPeer(peers[1].Overlay, full), pbench.NewStream(pbench.Frame(&mcpb.GIDs{Gid: [][]byte{g1.Bytes(), rnd(gen, 32)}})))
+					})
+					var err error
+					step("handler", func() {
+						ctx, cancel := context.WithTimeout(context.Background(), 5*time.Second)
+						defer cancel()
+						err = handlerOf(t, n.svc.Protocol(), "findGroup")(ctx, p2pPeer(peers[0].Overlay, full), pbench.NewStream(b))
+					})
+					follow(n, step)
+					return err
+				},
+			}, nm)
+		}
+
+		// ---- multicast (flooded message) -------------------------------------------------------
+		var ms []in
+		addM := func(class string, m *mcpb.MulticastMsg) { ms = append(ms, in{class, pbench.Frame(m)}) }
+		addM("msg-empty", &mcpb.MulticastMsg{})
+		addM("msg-g1", &mcpb.MulticastMsg{Id: 1, CreateTime: 1, Origin: peers[0].Overlay.Bytes(), Gid: g1.Bytes(), Data: []byte("hello")})
+		addM("msg-other-group", &mcpb.MulticastMsg{Id: 2, Origin: peers[0].Overlay.Bytes(), Gid: gOther.Bytes(), Data: []byte("hello")})
+		addM("msg-origin-self", &mcpb.MulticastMsg{Id: 3, Origin: self.Overlay.Bytes(), Gid: g1.Bytes()})
+		addM("msg-origin-empty", &mcpb.MulticastMsg{Id: 4, Gid: g1.Bytes()})
+		addM("msg-createtime-negative", &mcpb.MulticastMsg{Id: 5, CreateTime: -1 << 63, Origin: peers[0].Overlay.Bytes(), Gid: g1.Bytes()})
+		addM("msg-id-max", &mcpb.MulticastMsg{Id: ^uint64(0), Origin: peers[0].Overlay.Bytes(), Gid: g1.Bytes()})
+		addM("msg-data-900KB", &mcpb.MulticastMsg{Id: 6, Origin: peers[0].Overlay.Bytes(), Gid: g1.Bytes(), Data: make([]byte, 900000)})
+		for _, nb := range pbench.Addrs(gen) {
+			addM("msg-origin-"+nb.Name, &mcpb.MulticastMsg{Id: 7, Origin: nb.B, Gid: g1.Bytes()})
+			addM("msg-gid-"+nb.Name, &mcpb.MulticastMsg{Id: 8, Origin: peers[0].Overlay.Bytes(), Gid: nb.B})
+		}
+		for _, sub := range []bool{false, true} {
+			sub := sub
+			name := "multicast.multicast"
+			if sub {
+				name += "+subscribed"
+			}
+			runEndpoint(t, run, endpoint{
+				name: name, valid: [][]byte{pbench.Frame(&mcpb.MulticastMsg{Id: 77, CreateTime: 5, Origin: peers[0].Overlay.Bytes(), Gid: g1.Bytes(), Data: []byte("v")})}, structured: ms,
+				drive: func(b []byte, step stepFn) error {
+					n := newNode(nil, sub)
+					defer closeNode(n)
+					step("setup", func() {
+						_ = handlerOf(t, n.svc.Protocol(), "handshake")(context.Background(), p2pPeer(peers[1].Overlay, full), pbench.NewStream(pbench.Frame(&mcpb.GIDs{Gid: [][]byte{g1.Bytes()}})))
+					})
+					var err error
+					step("handler", func() {
+						err = handlerOf(t, n.svc.Protocol(), "multicast")(context.Background(), p2pPeer(peers[0].Overlay, full), pbench.NewStream(b))
+					})
+					follow(n, step)
+					return err
+				},
+			}, run.N(20, 300))
+		}
+
+	}
+	if messageOnly {
+		// ---- message (group message with optional session) --------------------------------------
+		var gm []in
+		addG := func(class string, frames ...[]byte) { gm = append(gm, in{class, pbench.Cat(frames...)}) }
+		msg := func(gid []byte, typ int32, data []byte) []byte {
+			return pbench.Frame(&mcpb.GroupMsg{Gid: gid, Type: typ, Data: data})
+		}
+		addG("gmsg-empty", pbench.Frame(&mcpb.GroupMsg{}))
+		addG("gmsg-sendonly-g1", msg(g1.Bytes(), 0, []byte("a")))
+		addG("gmsg-sendreceive-g1", msg(g1.Bytes(), 1, []byte("a")))
+		addG("gmsg-sendstream-g1", msg(g1.Bytes(), 2, []byte("a")))
+		addG("gmsg-type-negative", msg(g1.Bytes(), -1, []byte("a")))
+		addG("gmsg-type-huge", msg(g1.Bytes(), 2147483647, []byte("a")))
+		addG("gmsg-other-group", msg(gOther.Bytes(), 1, []byte("a")))
+		addG("gmsg-err-set", pbench.Frame(&mcpb.GroupMsg{Gid: g1.Bytes(), Type: 0, Err: "%s%d boom"}))
+		for _, nb := range pbench.Addrs(gen) {
+			addG("gmsg-gid-"+nb.Name, msg(nb.B, 1, nil))
+		}
+		// a second frame after a send-receive message: the session reader of the unchanged tree
+		// unmarshals it into a nil message in a goroutine of its own
+		late := []in{{"gmsg-sendreceive-then-second-frame", pbench.Cat(msg(g1.Bytes(), 1, []byte("a")), msg(g1.Bytes(), 1, []byte("b")))}}
+		for _, sub := range []bool{false, true} {
+			sub := sub
+			name := "multicast.message"
+			var l []in
+			if sub {
+				name += "+subscribed"
+				l = late
+			}
+			_ = l
+			runEndpoint(t, run, endpoint{
+				name: name, valid: [][]byte{msg(g1.Bytes(), 0, []byte("valid")), msg(g1.Bytes(), 1, []byte("valid"))}, structured: gm, early: l,
+				drive: func(b []byte, step stepFn) error {
+					n := newNode(nil, sub)
+					defer closeNode(n)
+					var err error
+					step("handler", func() {
+						err = handlerOf(t, n.svc.Protocol(), "message")(context.Background(), p2pPeer(peers[0].Overlay, full), pbench.NewStream(b))
+					})
+					follow(n, step)
+					return err
+				},
+			}, run.N(20, 300))
+		}
+
+	}
+	if !messageOnly {
+		// ---- clients: Send / SendReceive replies ------------------------------------------------
+		var rs []in
+		rs = append(rs, in{"reply-empty-msg", pbench.Frame(&mcpb.GroupMsg{})}, in{"reply-err", pbench.Frame(&mcpb.GroupMsg{Err: "%!s(boom) %d"})},
+			in{"reply-data", pbench.Frame(&mcpb.GroupMsg{Data: rnd(gen, 100)})}, in{"reply-two-frames", pbench.Cat(pbench.Frame(&mcpb.GroupMsg{Data: []byte("1")}), pbench.Frame(&mcpb.GroupMsg{Data: []byte("2")}))})
+		for _, which := range []string{"Send", "SendReceive"} {
+			which := which
+			runEndpoint(t, run, endpoint{
+				name: "multicast." + which, valid: [][]byte{pbench.Frame(&mcpb.GroupMsg{Gid: g1.Bytes(), Data: []byte("ok")})}, structured: rs,
+				drive: func(b []byte, step stepFn) error {
+					n := newNode(b, false)
+					defer closeNode(n)
+					ctx, cancel := context.WithTimeout(context.Background(), 5*time.Second)
+					defer cancel()
+					if which == "Send" {
+						return n.svc.Send(ctx, []byte("q"), g1, peers[0].Overlay)
+					}
+					_, err := n.svc.SendReceive(ctx, []byte("q"), g1, peers[0].Overlay)
+					return err
+				},
+			}, run.N(20, 200))
+		}
 	}
 }
